@@ -107,6 +107,8 @@ PROPS["C02"] = {
         {"name": "c02.parsers", "engine": "fuzz", "asan_extra": ":alloc_dealloc_mismatch=0", "max_len": 1200, "timeout": 30, "len_control": 20, "quick": F(4, 2500), "thorough": F(8, 3000000, max_total_time=1200)},
         {"name": "c02.sweep", "engine": "enum", "asan_extra": ":alloc_dealloc_mismatch=0", "quick": {"workers": 8, "cases": 0, "params": {"partition_depth": 1}, "max_seconds": 300},
          "thorough": {"workers": 8, "cases": 0, "params": {"partition_depth": 1}, "max_seconds": 1500}},
+        {"name": "c02.sweep-structure", "engine": "enum", "asan_extra": ":alloc_dealloc_mismatch=0", "quick": {"workers": 8, "cases": 0, "params": {"partition_depth": 1}, "max_seconds": 400},
+         "thorough": {"workers": 8, "cases": 0, "params": {"partition_depth": 1}, "max_seconds": 1500}},
         {"name": "c02.message-modes", "engine": "rapid", "asan_extra": ":alloc_dealloc_mismatch=0", "quick": R(2, 1200), "thorough": R(4, 400000)},
         {"name": "c02.client", "engine": "rapid", "asan_extra": ":alloc_dealloc_mismatch=0", "quick": R(2, 2000), "thorough": R(8, 200000)},
         {"name": "c02.uninit", "engine": "rapid", "asan_extra": ":alloc_dealloc_mismatch=0", "quick": R(2, 500), "thorough": R(4, 200000)},
